@@ -183,6 +183,11 @@ theorem C16_setErr_waits_for_nobody :
     error when the application cancels the context BECAUSE the link failed. -/
 theorem C16_link_returns_the_slot : Skeleton.current.linkReturnsOnlyFatalSlot = true ∧ Skeleton.current.linkWaitsOnCond = true := by decide
 
+/-- A failure inside a closure proxy (undecodable closure id, failing stub) is a failure of the link: the
+    proxy reports it with `setErr` (checked against the regenerated skeleton), so `Link` returns it. -/
+theorem C16_proxy_failures_are_fatal :
+    Skeleton.current.pxRecoverReports = true ∧ Skeleton.current.seClosesOnEveryPath = true := by decide
+
 end Panrpc.Ep
 
 #print axioms Panrpc.Ep.C16_setErr_waits_for_nobody
@@ -201,3 +206,4 @@ end Panrpc.Ep
 #print axioms Panrpc.Ep.C16_wrong_error_on_pinned
 #print axioms Panrpc.Ep.C16_overwrite_on_pinned
 #print axioms Panrpc.Ep.C16_link_returns_the_slot
+#print axioms Panrpc.Ep.C16_proxy_failures_are_fatal
